@@ -31,7 +31,7 @@ VERDICTS=""
 for p in $PID $EXTRA; do
   R=$(./check $p 2>&1 | grep -E "^VIOLATION|: ok " | head -2 | tr '\n' ' ')
   VERDICTS="$VERDICTS$p => $R; "
-  if echo "$R" | grep -q VIOLATION; then cp evidence/replay/$p-*.ops $DST/replay-$p.ops 2>/dev/null; fi
+  if echo "$R" | grep -q VIOLATION; then cp "$(ls -t evidence/replay/$p-*.ops | head -1)" $DST/replay-$p.ops 2>/dev/null; fi
 done
 cd /repo && git checkout -q -- . 
 echo "checks: $VERDICTS"
